@@ -32,6 +32,8 @@ func c02Paths() []*refsem.E {
 		pipe(refsem.Leaf("splat"), refsem.Un("select", refsem.Bin("eq", k("a"), one)), k("b")),
 		pipe(refsem.Leaf("splat"), refsem.Un("select", refsem.Un("has", refsem.Lit(val.StrV("a")))), k("b")),
 		k("c"), pipe(k("c"), k("d")), pipe(k("c"), ix(1)), ix(3), pipe(ix(1), ix(0)), pipe(k("b"), ix(-1)),
+		// several indices in one bracket: past the end and negative, in both orders
+		refsem.Idxs(0, 1), refsem.Idxs(3, -1), refsem.Idxs(-1, 3), pipe(k("a"), refsem.Idxs(2, -1)), refsem.Idxs(1, 1),
 	}
 }
 
